@@ -13,14 +13,14 @@ impl<'a> PeekChars<'a> {
         ensures
             old(self).view().len() == 0 ==> r is None && final(self).view() == old(self).view(),
             old(self).view().len() > 0 ==> r == Some(old(self).view()[0]) && final(self).view() == old(self).view().skip(1),
-    { self.it.next() }
+    { std::iter::Iterator::next(&mut self.it) }
     #[verifier::external_body]
     pub fn peek(&mut self) -> (r: Option<&char>)
         ensures
             final(self).view() == old(self).view(),
             old(self).view().len() == 0 ==> r is None,
             old(self).view().len() > 0 ==> r == Some(&old(self).view()[0]),
-    { self.it.peek() }
+    { std::iter::Peekable::peek(&mut self.it) }
 }
 
 /// byte offset at which the j-th character of `s` starts (sum of the UTF-8 lengths before it)
@@ -46,7 +46,7 @@ impl<'a> PeekCharIndices<'a> {
         ensures
             old(self).view().len() == 0 ==> r is None && final(self).view() == old(self).view(),
             old(self).view().len() > 0 ==> r == Some(old(self).view()[0]) && final(self).view() == old(self).view().skip(1),
-    { self.it.next() }
+    { std::iter::Iterator::next(&mut self.it) }
     /// `peek().cloned()` (a copy of the peeked pair; vstd has no clone specification for tuples)
     #[verifier::external_body]
     pub fn peek_cloned(&mut self) -> (r: Option<(usize, char)>)
@@ -54,12 +54,12 @@ impl<'a> PeekCharIndices<'a> {
             final(self).view() == old(self).view(),
             old(self).view().len() == 0 ==> r is None,
             old(self).view().len() > 0 ==> r == Some(old(self).view()[0]),
-    { self.it.peek().cloned() }
+    { std::iter::Peekable::peek(&mut self.it).cloned() }
     #[verifier::external_body]
     pub fn peek(&mut self) -> (r: Option<&(usize, char)>)
         ensures
             final(self).view() == old(self).view(),
             old(self).view().len() == 0 ==> r is None,
             old(self).view().len() > 0 ==> r == Some(&old(self).view()[0]),
-    { self.it.peek() }
+    { std::iter::Peekable::peek(&mut self.it) }
 }
